@@ -485,6 +485,42 @@ def singular_ops(op):
     return [[s, n, clean_val(v)] for n, v in op[1]]
 
 
+# --------------------------------------------------------------------------- canonical wire form of an op
+
+
+def _as_dict(pairs):
+    """a pair list read the way the call receives it — as a Python dict: a key given twice keeps its first position
+    and its last value"""
+    d = {}
+    for k, v in pairs:
+        d[k] = v
+    return [[k, v] for k, v in d.items()]
+
+
+def _canon_sur_st(st):
+    return None if st is None else _as_dict([[f, _as_dict(inner)] for f, inner in st])
+
+
+def canon_op(op):
+    """the op with every stoichiometry written once per key (the real call is made with dicts built from the pair
+    lists; the Lean model and the oracles are given the same thing)"""
+    k = op[0]
+    meta = op[-1] == "meta"
+    body = list(op[:-1]) if meta else list(op)
+    if k == "add_reaction":
+        body[2] = {**body[2], "st": _as_dict(body[2]["st"])}
+    elif k == "update_reaction" and body[4] is not None:
+        body[4] = _as_dict(body[4])
+    elif k in ("add_surrogate", "update_surrogate"):
+        if body[2] is not None:
+            body[2] = {**body[2], "st": _canon_sur_st(body[2]["st"])}
+        if len(body) > 5:
+            body[5] = _canon_sur_st(body[5])
+    elif k == "make_parameter_dynamic" and body[3] is not None:
+        body[3] = _as_dict(body[3])
+    return body + (["meta"] if meta else [])
+
+
 # --------------------------------------------------------------------------- public methods the check knows nothing about
 
 KNOWN_PUBLIC = set(PLURAL) | set(PLURAL.values()) | {
